@@ -25,6 +25,8 @@ def parseOp (s : String) : Option Op :=
   | ["send", f] => (ofHex f).map Op.send
   | ["sendn", f, n] => do let b ← ofHex f; let k ← n.toNat?; pure (Op.sendN b k)
   | ["auth", t, k] => do let tb ← ofHex t; let kb ← ofHex k; pure (Op.authenticate tb kb)
+  | ["sendc", f, ms] => do let b ← ofHex f; let k ← ms.toNat?; pure (Op.sendCancelled b k)
+  | ["authc", t, k, ms] => do let tb ← ofHex t; let kb ← ofHex k; let m ← ms.toNat?; pure (Op.authCancelled tb kb m)
   | ["adv", ms] => ms.toNat?.map Op.advance
   | ["life", "none"] => some (Op.setMaxLifetime none)
   | ["life", ms] => ms.toNat?.map (fun m => Op.setMaxLifetime (some m))
